@@ -1882,5 +1882,15 @@ func (ctx *RenderContext) ToString(val interface{}) string {
 		return v.String()
 	}
 
+	// A pointer prints as what it points to, never as an address
+	if rv := reflect.ValueOf(val); rv.Kind() == reflect.Ptr {
+		if rv.IsNil() {
+			return ""
+		}
+		if rv.Elem().Kind() != reflect.Struct && rv.Elem().CanInterface() {
+			return ctx.ToString(rv.Elem().Interface())
+		}
+	}
+
 	return fmt.Sprintf("%v", val)
 }
